@@ -1451,6 +1451,32 @@ func runOrder(c *Check, rule string, e *orderEngine, sel func(*ssa.Function) boo
 			c.Ob(rule, key, p.pos(l.rng.Pos()), Flag, "map iteration order reaches an order-sensitive effect: "+sinks[0].what, w...)
 		}
 	}
+	// reflected map keys behave like a map iteration: evaluate them before the
+	// tainted-result fixpoint (the evaluation may mark the function as
+	// returning map-ordered data)
+	type reflRes struct {
+		f               *ssa.Function
+		call            *ssa.Call
+		name            string
+		sorted, onlyRet bool
+	}
+	var refl []reflRes
+	for _, f := range e.fns {
+		eachInstr(f, func(_ *ssa.BasicBlock, i ssa.Instruction) {
+			call, ok := i.(*ssa.Call)
+			if !ok {
+				return
+			}
+			if o := calleeObj(call); o != nil && o.Pkg() != nil && o.Pkg().Path() == "reflect" && (o.Name() == "MapKeys" || o.Name() == "MapRange") {
+				sorted, onlyRet := e.sliceUseState(call, nil)
+				if !sorted && onlyRet {
+					e.sum[f].returnsTaint = true
+					e.sum[f].taintWhy = "returns reflected map keys unsorted"
+				}
+				refl = append(refl, reflRes{f, call, o.Name(), sorted, onlyRet})
+			}
+		})
+	}
 	// tainted results: functions that return a slice in map order; every
 	// caller must sort (or setify) it before an order-sensitive use
 	for changed := true; changed; {
@@ -1486,20 +1512,6 @@ func runOrder(c *Check, rule string, e *orderEngine, sel func(*ssa.Function) boo
 			if !ok {
 				return
 			}
-			if o := calleeObj(call); o != nil && o.Pkg() != nil && o.Pkg().Path() == "reflect" && (o.Name() == "MapKeys" || o.Name() == "MapRange") {
-				nTaintCalls++
-				key := fmt.Sprintf("%s|result of reflect.%s", fnName(f), o.Name())
-				sorted, onlyRet := e.sliceUseState(call, nil)
-				switch {
-				case sorted:
-					c.Okf(rule, key, p.pos(call.Pos()), "reflected map keys are sorted before any order-sensitive use")
-				case onlyRet:
-					c.Flagf(rule, key, p.pos(call.Pos()), "reflected map keys (map iteration order) are returned unsorted")
-				default:
-					c.Flagf(rule, key, p.pos(call.Pos()), "reflected map keys are in map iteration order and are used here without being sorted first")
-				}
-				return
-			}
 			for _, g := range e.callees[call] {
 				gs := e.sum[g]
 				if gs == nil || !gs.returnsTaint {
@@ -1519,6 +1531,21 @@ func runOrder(c *Check, rule string, e *orderEngine, sel func(*ssa.Function) boo
 				break
 			}
 		})
+	}
+	for _, r := range refl {
+		if !sel(r.f) {
+			continue
+		}
+		nTaintCalls++
+		key := fmt.Sprintf("%s|result of reflect.%s", fnName(r.f), r.name)
+		switch {
+		case r.sorted && !e.sum[r.f].returnsTaint:
+			c.Okf(rule, key, p.pos(r.call.Pos()), "reflected map keys are sorted before any order-sensitive use")
+		case r.sorted || r.onlyRet:
+			c.Okf(rule, key, p.pos(r.call.Pos()), "reflected map keys are passed on to the callers (in map order), which are checked in turn")
+		default:
+			c.Flagf(rule, key, p.pos(r.call.Pos()), "reflected map keys are in map iteration order and are used here without being sorted first")
+		}
 	}
 	c.Counts[rule+"_calls_of_map_ordered_results"] = nTaintCalls
 	c.Counts[rule+"_map_range_loops"] = nLoops
